@@ -188,6 +188,13 @@ class Explorer:
         self.edges += 1
         a = self.observe(old)
         b = self.observe(new)
+        smp = self.o.notes.setdefault("_samples", [])
+        if len(smp) < 3:
+            smp.append({"edge": label, "from_state": old.key()[:12], "to_state": new.key()[:12],
+                        "from_shells": [[s_.l, s_.ctype, list(s_.exps), len(s_.coeffs[0])] for s_ in old.shells],
+                        "to_shells": [[s_.l, s_.ctype, list(s_.exps), len(s_.coeffs[0])] for s_ in new.shells],
+                        "transformation_attached": new.T is not None, "L_shape": list(np.shape(L)),
+                        "quantities_compared": [n_ for n_ in self.iq if n_ in a and n_ in b]})
         L = np.asarray(L, dtype=float)
         aL = np.abs(L)
         allpred = {name: apply_L(a[name], L, axes) for name, (fn, axes) in self.iq.items() if name in a}
